@@ -295,7 +295,6 @@ func checkBatch(b *Batch) *wkpool.CaseResult {
 	}
 	odd := strings.HasSuffix(b.Family, "-odd")
 	res.Key = shortHash(b.shapeKey())
-	res.Sample = map[string]any{"family": b.Family, "body_hex_or_text": bodyText(b, body), "model": b}
 	p := parse(b, body)
 	res.RealTraces = 1
 	if p.err != nil {
